@@ -556,7 +556,7 @@ func (c *Catalog) AddJsonRpcMethod(d directive.Directive) *jerr.JApiError {
 		return d.KeywordError(err.Error())
 	}
 
-	if c.Interactions.Has(rpcId) {
+	if c.Interactions.Has(rpcId) || c.hasInteractionWithTextID(rpcId.String()) {
 		return d.KeywordError(fmt.Sprintf("method is already defined in resource %s", rpcId.String()))
 	}
 
@@ -573,6 +573,15 @@ func (c *Catalog) AddJsonRpcMethod(d directive.Directive) *jerr.JApiError {
 	c.Interactions.Set(rpcId, in)
 
 	return nil
+}
+
+// hasInteractionWithTextID checks that there is an interaction whose ID has the
+// same text form: different IDs must not be serialised under one key.
+func (c *Catalog) hasInteractionWithTextID(id string) bool {
+	_, ok := c.Interactions.Find(func(k InteractionID, _ Interaction) bool {
+		return k.String() == id
+	})
+	return ok
 }
 
 func (c *Catalog) AddJsonRpcParams(s Schema, d directive.Directive) error {
